@@ -201,6 +201,8 @@ def run(repo, rep, tier):
     index_formula_rule(repo, rep)
     batch_average_rule(repo, rep, prims)
     count_sees_length_rule(repo, rep)
+    from .c02 import datum_forwarding_rule
+    datum_forwarding_rule(repo, rep, prims, "_numpy")
     coverage_guard(repo, prims, rep=rep)
     positive_control(repo, rep, r3)
     merge_formulas(repo, rep, r5, models)
